@@ -371,9 +371,9 @@ def run(ctx):
     except Exception as e:
         raise common.Inconclusive("strace unusable: %r" % (e,))
     nw = common.NCPU
-    n = ctx.scale(320, 8000)
+    n = ctx.scale(320, 64000)
     ctx.pmap(worker, [(k, n // nw, ctx.seed) for k in range(nw)])
-    nv = ctx.scale(160, 4000)
+    nv = ctx.scale(160, 32000)
     ctx.pmap(vanished_worker, [(k, max(2, nv // nw), ctx.seed) for k in range(nw)])
     ctx.require("vanished_entries_evaluated", 10)
     for key in ("runs_with_failed_removal", "runs_mode_P", "runs_mode_H", "runs_mode_L", "link_entries_removed", "removal_events_observed", "sandboxes_with_non_utf8_names"):
